@@ -55,6 +55,7 @@ type vc05Thread struct {
 	lastRes string
 	resume  chan struct{}
 	outcome string
+	fail    string // injected store fault: "get" | "set" | "del" — that underlying call of this thread returns an error
 }
 
 // VerifC05Exec runs n thread functions under a schedule: exactly one worker goroutine runs at a time.
@@ -67,6 +68,7 @@ type VerifC05Exec struct {
 	order   []int
 	Trace   []string // one entry per step
 	Dumps   int      // number of goroutine dumps needed (blocked-thread detection)
+	Faults  []string // per thread, see vc05Thread.fail
 }
 
 func VerifC05NewExec() *VerifC05Exec {
@@ -75,8 +77,12 @@ func VerifC05NewExec() *VerifC05Exec {
 
 func (x *VerifC05Exec) SetThreads(fns []func() string) {
 	x.threads = nil
-	for _, f := range fns {
-		x.threads = append(x.threads, &vc05Thread{fn: f, resume: make(chan struct{})})
+	for i, f := range fns {
+		t := &vc05Thread{fn: f, resume: make(chan struct{})}
+		if i < len(x.Faults) {
+			t.fail = x.Faults[i]
+		}
+		x.threads = append(x.threads, t)
 	}
 }
 
@@ -351,8 +357,14 @@ func (g *VerifC05Gate) gate(op string, key any) *vc05Thread {
 	return g.Exec.park(op, k)
 }
 
+var errVerifC05Injected = fmt.Errorf("verif: injected store failure")
+
 func (g *VerifC05Gate) Get(ctx context.Context, key any) (any, error) {
 	t := g.gate("get", key)
+	if t != nil && t.fail == "get" {
+		t.lastRes = "fail"
+		return nil, errVerifC05Injected
+	}
 	v, err := g.Inner.Get(ctx, key)
 	if t != nil {
 		if err == nil {
@@ -379,6 +391,10 @@ func (g *VerifC05Gate) GetWithTTL(ctx context.Context, key any) (any, time.Durat
 
 func (g *VerifC05Gate) Set(ctx context.Context, key any, value any, options ...store.Option) error {
 	t := g.gate("set", key)
+	if t != nil && t.fail == "set" {
+		t.lastRes = "fail"
+		return errVerifC05Injected
+	}
 	err := g.Inner.Set(ctx, key, value, options...)
 	if t != nil {
 		if err == nil {
@@ -392,6 +408,10 @@ func (g *VerifC05Gate) Set(ctx context.Context, key any, value any, options ...s
 
 func (g *VerifC05Gate) Delete(ctx context.Context, key any) error {
 	t := g.gate("del", key)
+	if t != nil && t.fail == "del" {
+		t.lastRes = "fail"
+		return errVerifC05Injected
+	}
 	var err error
 	if g.Strict {
 		if _, gerr := g.Inner.Get(ctx, key); gerr != nil {
@@ -597,6 +617,8 @@ type VerifC05Req struct {
 	Want string `json:"want"`
 	Pre  bool   `json:"pre"`
 	Post bool   `json:"post"`
+	Fail string `json:"fail,omitempty"` // injected store fault for this request: get | set | del
+	Fmt  string `json:"fmt,omitempty"`  // how the request carries the secret (presentation format / entry point variant); not modelled
 }
 
 type VerifC05Init struct {
@@ -657,6 +679,10 @@ func (scn *VerifC05Scn) setup(level VerifC05Level) VerifC05Setup {
 		fns, err := level(b, scn)
 		if err != nil {
 			panic(err)
+		}
+		x.Faults = nil
+		for _, r := range scn.Threads {
+			x.Faults = append(x.Faults, r.Fail)
 		}
 		final := func() string {
 			var r []string
